@@ -6,6 +6,9 @@
 //   truthful   : random (family, cell, cycle/level parameters, x0, tolerance, budget) calls over G1 (any contrast), G2, G3, G5;
 //                held to (a) truthfulness and (b) the iteration bound only
 //   richardson : n <= 300, B extracted densely from precond().apply; iterate after k steps == dense recurrence; rate == rho(I - w B A)
+// The truthful-residual oracle, its rounding bounds and its scope rules (amplifying preconditioner, smoother outside its domain, overflow,
+// a-posteriori conditioning probe) live in include/vf/krylov.hpp (vf::check_truthful); condition-number bounds in include/vf/cond.hpp.
+// Options: --stride=N (run every N-th case: reduced asan / multi-thread jobs), --debug=1 (print every monitored call).
 #include <amgcl/backend/builtin.hpp>
 #include <amgcl/adapter/crs_tuple.hpp>
 #include <amgcl/amg.hpp>
